@@ -16,7 +16,7 @@ PROP = dict(
         H(NM, "c31", "c31_v4_plain", "IPv4 lists (quick table, 272 lists) x every IPv4 address: is_in <=> exists subnet with equal masked prefix", timeout=600),
         H(NM, "c31", "c31_v4_mapped", "same lists x every IPv4-mapped IPv6 address: matched as its IPv4 address", timeout=600),
         H(NM, "c31", "c31_v4_proper_v6", "same lists x every proper IPv6 address: never listed", timeout=600),
-        H(NM, "c31", "c31_v6_quick", "IPv6 lists (first 40 of the quick table: empty, 17 masks incl. 0/1/127/128, sibling pairs /1../11) x every proper IPv6 address", timeout=600),
+        H(NM, "c31", "c31_v6_quick", "IPv6 lists (first 24 of the quick table: empty, 17 masks incl. 0/1/127/128, sibling pairs /1../3) x every proper IPv6 address", timeout=600),
         H(NM, "c31", "c31_v6", "IPv6 lists (quick table, 149 lists) x every proper IPv6 address", tier="thorough"),
         H(NM, "c31", "c31_v6_v4_query", "IPv6 lists x every IPv4 / IPv4-mapped address: never listed", tier="thorough"),
     ] + [H(NM, "c31", "c31_v4_full_plain_%d" % k, "IPv4 thorough table chunk %d (<= 1101 lists) x every IPv4 address" % k, tier="thorough") for k in range(3)]
